@@ -53,6 +53,7 @@ func genC07(r *kernel.Rand) *kernel.Scenario {
 	c["bus_max_us"] = int64([]int{100, 400}[r.Intn(2)])
 	c["react_max_us"] = int64([]int{50, 500}[r.Intn(2)])
 	c["yield_pct"] = int64([]int{0, 30}[r.Intn(2)])
+	c["long_yields"] = int64(r.Intn(2))
 	c["ctx_ms"] = 4000
 	app := r.Weighted([]int{3, 1})
 	sc.Steps = append(sc.Steps, kernel.St("open", "from", 0, "r", int64(r.Uint64()>>2), "app", app, "assets", 1+r.Weighted([]int{3, 1}), "challenge", 5))
@@ -91,8 +92,8 @@ type craft struct {
 	fired   bool
 	before  *channel.State // H's current state of ch when the message was sent
 	msg     *client.ChannelUpdateMsg
-	sigOK   bool             // signature is A's over exactly msg.State
-	sub     *channel.State   // funded/settled channel's state as H holds it
+	sigOK   bool           // signature is A's over exactly msg.State
+	sub     *channel.State // funded/settled channel's state as H holds it
 	subID   channel.ID
 	accSeen bool // H sent ChannelUpdateAcc for (ch, version)
 }
